@@ -140,6 +140,9 @@ class FnExecutor(Executor):
                     x = self.display_to(x, ty.val, st)
                 cur = SV(ty, d_store(ty, cur.z, self.coerce(k, ty.key, st).z, self.coerce(x, ty.val, st).z))
             return cur
+        if ty is ANY:
+            # stored where only an opaque value is declared: the content is dropped (sound: ANY says nothing about it)
+            return fresh_sv(ANY, 'display')
         raise Unbound('dict display used as %s' % ty)
 
     def target_type(self, tg, st):
@@ -279,6 +282,11 @@ class FnExecutor(Executor):
                 stv = z3.BoolVal(False)
             elif tv.get_id() in r.st.known or stv.get_id() in r.st.known:
                 stv = z3.BoolVal(True)
+            if not z3.is_false(stv) and not z3.is_true(stv) and not s.orelse:
+                m = self.merged_if(s, r.st, tv)
+                if m is not None:
+                    outs.append(Out('fall', m))
+                    continue
             if not z3.is_false(stv):
                 s1 = r.st.copy().assume(tv).note('L%s: if-true' % s.lineno)
                 outs.extend(self.block(s.body, s1))
@@ -286,6 +294,45 @@ class FnExecutor(Executor):
                 s2 = r.st.copy().assume(z3.Not(tv)).note('L%s: if-false' % s.lineno)
                 outs.extend(self.block(s.orelse, s2) if s.orelse else [Out('fall', s2)])
         return outs
+
+    def merged_if(self, s, st, tv):
+        """`if c: x = e; ...` whose body only rebinds locals to values of the type they already have and cannot raise:
+        one state with x = ite(c, e, x) instead of two paths (keeps chains of optional-key tests linear)"""
+        if not all(isinstance(b, ast.Assign) and len(b.targets) == 1 and isinstance(b.targets[0], ast.Name) for b in s.body):
+            return None
+        n_ob = len(self.obligations)
+        s1 = st.copy().assume(tv)
+        try:
+            res = self.block(s.body, s1)
+        except Unbound:
+            del self.obligations[n_ob:]
+            return None
+        ok = len(res) == 1 and res[0].kind == 'fall'
+        if ok:
+            e = res[0].st
+            ok = (e.alloc is st.alloc and e.next_oid is st.next_oid and set(e.heap) == set(st.heap)
+                  and all(e.heap[k] is st.heap[k] for k in st.heap) and set(e.ghost) == set(st.ghost)
+                  and all(e.ghost[k] is st.ghost[k] for k in st.ghost) and set(e.loc) == set(st.loc))
+        changed = {}
+        if ok:
+            for n, v in e.loc.items():
+                o = st.loc[n]
+                if v is o:
+                    continue
+                if v.t != o.t or v.z is None or o.z is None or not z3.is_expr(v.z) or not z3.is_expr(o.z) or v.z.sort() != o.z.sort():
+                    ok = False
+                    break
+                changed[n] = SV(v.t, z3.If(tv, v.z, o.z))
+        if not ok:
+            del self.obligations[n_ob:]
+            return None
+        m = st.copy().note('L%s: if (merged)' % s.lineno)
+        for c in e.pc[len(s1.pc):]:
+            m.pc.append(z3.Implies(tv, c))
+        for n, v in changed.items():
+            m.loc[n] = v
+            m.origin.pop(n, None)
+        return m
 
     # try ----------------------------------------------------------------------------------
     def st_Try(self, s, st):
